@@ -1,3 +1,4 @@
 //! Seeded generators shared by the property modules.
 pub mod names;
 pub mod rdata;
+pub mod msg;
